@@ -589,11 +589,23 @@ class Gen:
 				self.rng.shuffle(items)
 				return Src('[' + ', '.join(items) + ']', P_ATOM)
 			el = el[1] if self.rng.random() < 0.8 else NONE
-		return Src('[' + ', '.join(self.expr(el, depth).text for _ in range(n)) + ']', P_ATOM)
+		items = [self.expr(el, depth).text for _ in range(n)]
+		if self.mode == 'search' and el[0] != 'opt' and self.rng.random() < 0.3:
+			# spread elements (`[*xs, a]`, `[*d]` = the keys, `[*d.values()]`, `[*range(n)]`): on_spread (reflections.py:722) types the
+			# spread items by the FIRST type argument of the spread expression's type
+			for i in self.rng.sample(range(n), self.rng.randint(1, n)):
+				it = self.iter_source(el, min(depth, 1))
+				if it is not None:
+					items[i] = '*' + it.at(P_ATOM)
+		return Src('[' + ', '.join(items) + ']', P_ATOM)
 
 	def dict_literal(self, kt: Ty, vt: Ty, depth: int) -> Src:
 		n = self.rng.randint(1, 3)
 		items = [f'{self.expr(kt, min(depth, 1)).text}: {self.expr(vt, depth).text}' for _ in range(n)]
+		if self.mode == 'search' and not has_opt(vt) and self.rng.random() < 0.25:
+			dct = self.receiver(('dict', kt, vt), 0)
+			if dct is not None:
+				items[self.rng.randrange(n)] = '**' + dct.at(P_ATOM)
 		return Src('{' + ', '.join(items) + '}', P_ATOM)
 
 	def fresh_var(self) -> str:
